@@ -53,6 +53,7 @@ Init0 == [
   abrtSeen |-> {},       \* bars some getter reported aborted
   dropped  |-> {},       \* bars on which Abort(drop=true) has returned
   aborts   |-> EmptyF,   \* bar -> set of drop flags of the Abort calls issued while the container was live
+  abortNoop |-> {},      \* <<client, index>> of Abort calls invoked on a bar already known to be completed
   abortsU  |-> EmptyF,   \* ... of those that returned after a cancellation / Shutdown was requested: the bar may already have
                          \*     been aborted by its context, in which case the call had no effect
   prioAt   |-> EmptyF,   \* bar -> seq of the latest priority change that returned
@@ -190,9 +191,10 @@ FrameRules(s, e) ==
   \*      reacts to that state stands in for the decorator, otherwise the decorator itself is drawn
   \o (LET Wr(b, d) == LET ws == {i \in DOMAIN s.bars[b].wraps : s.bars[b].wraps[i].d = d}
                       IN IF ws = {} THEN <<>> ELSE s.bars[b].wraps[CHOOSE i \in ws : TRUE].w
-          Reacts(w, fl) == \/ (w = "oncomplete" /\ fl = "C") \/ (w = "onabort" /\ fl = "A")
+          Reacts(w, fl) == \/ (w \in {"oncomplete", "oncomplete0"} /\ fl = "C") \/ (w \in {"onabort", "onabort0"} /\ fl = "A")
                            \/ (w = "either" /\ fl \in {"C", "A"})
-          Sfx(w) == IF w = "oncomplete" THEN "C" ELSE IF w = "onabort" THEN "A" ELSE "E"
+          \* (a wrapper with an empty message clears the decorator: nothing is drawn, so nothing is compared)
+          Sfx(w) == IF w = "oncomplete" THEN "C" ELSE IF w = "onabort" THEN "A" ELSE IF w = "either" THEN "E" ELSE "cleared"
           Want(b, d, fl) == LET w == Wr(b, d)
                                 hit == {m \in DOMAIN w : Reacts(w[m], fl)}
                             IN IF hit = {} THEN "" ELSE Sfx(w[MaxOf(hit)])     \* wrappers are listed innermost first
@@ -200,6 +202,15 @@ FrameRules(s, e) ==
           odd == {i \in DOMAIN gs : gs[i].b \in DOMAIN s.bars /\ gs[i].fl \in {"-", "C", "A"} /\
                      \E n \in DOMAIN Toks(gs[i]) : Toks(gs[i])[n].sfx # Want(gs[i].b, Toks(gs[i])[n].d, gs[i].fl)}
       IN IF odd # {} THEN <<B("C03", "decoration-does-not-match-state", e, ToString({gs[i].b : i \in odd}))>> ELSE <<>>)
+  \* C03/C05/C18: a finished bar that has to leave is drawn in its terminal state twice (three times when it is popped:
+  \*      the third time on top) and then no more, in every refresh mode
+  \o (LET tb == {gs[i].b : i \in {j \in DOMAIN gs : Terminal(gs[j].fl) /\ gs[j].b \in DOMAIN s.bars}}
+          Cnt(b) == (IF b \in DOMAIN s.termCnt THEN s.termCnt[b] ELSE 0) + 1
+          NoAbort(b) == AbortFlags(s, b) = {} /\ AbortFlagsU(s, b) = {} /\ b \notin s.dropped
+          MustGo(b) == \/ (s.cfg.pop /\ ~s.bars[b].nopop)
+                       \/ (s.bars[b].rm /\ NoAbort(b) /\ b \in s.compShown)
+          late == {b \in tb : MustGo(b) /\ s.detached = {} /\ Cnt(b) > (IF s.cfg.pop /\ ~s.bars[b].nopop THEN 3 ELSE 2)}
+      IN IF late # {} /\ ~s.fault THEN <<B("C03,C05,C18", "finished-bar-not-retired", e, ToString(late))>> ELSE <<>>)
   \* C07: no row wider than the terminal
   \o (IF s.cfg.width > 0 /\ e.maxw > s.cfg.width THEN <<B("C07", "row-too-wide", e, ToString(e.maxw))>> ELSE <<>>)
   \* C04/C13: grammar of a frame
@@ -434,6 +445,7 @@ Step(s, e) ==
                    !.prio = @ @@ (e.b :> IF s.bars[e.b].hasprio THEN s.bars[e.b].prio ELSE Len(s.created))]
     [] e.ev = "inv" /\ e.op = "prio" -> [s EXCEPT !.prioInv = (<<e.c, e.i>> :> e.seq) @@ @]
     [] e.ev = "ret" /\ e.op = "prio" /\ e.b \in DOMAIN s.prio -> PrioReturned(WithPrioCall(s, e), e)
+    [] e.ev = "ret" /\ e.op = "abort" /\ <<e.c, e.i>> \in s.abortNoop -> s    \* Abort has no effect on a completed bar
     [] e.ev = "ret" /\ e.op = "abort" /\ s.doneAt = 0 ->
          [s EXCEPT !.dropped = IF e.flag THEN @ \cup {e.b} ELSE @,
                    !.aborts = IF s.stopReq THEN @
@@ -445,7 +457,12 @@ Step(s, e) ==
              sure == /\ e.b \notin s.spoiled /\ ~s.stopReq /\ ~s.closing /\ ~s.fault /\ s.doneAt = 0
                      /\ s.bars[e.b].total > 0 /\ lb >= s.bars[e.b].total
          IN [s EXCEPT !.curLB = (e.b :> lb) @@ @, !.mustComplete = IF sure THEN @ \cup {e.b} ELSE @]
-    [] e.ev = "inv" /\ e.op \in {"abort", "settotal", "trigger"} -> [s EXCEPT !.spoiled = @ \cup {e.b}]
+    [] e.ev = "inv" /\ e.op = "abort" ->
+         \* an Abort invoked on a bar that is already known to be completed is refused: it neither aborts nor changes
+         \* what happens to the bar afterwards (removal, drop)
+         [s EXCEPT !.spoiled = @ \cup {e.b},
+                   !.abortNoop = IF e.b \in s.compShown \cup s.mustComplete THEN @ \cup {<<e.c, e.i>>} ELSE @]
+    [] e.ev = "inv" /\ e.op \in {"settotal", "trigger"} -> [s EXCEPT !.spoiled = @ \cup {e.b}]
     [] e.ev = "inv" /\ e.op = "setcur" ->
          [s EXCEPT !.spoiled = @ \cup {e.b},
                    !.curUB = [b \in DOMAIN @ \cup {e.b} |-> (IF b \in DOMAIN @ THEN @[b] ELSE 0) + (IF b = e.b /\ e.n > 0 THEN e.n ELSE 0)]]
@@ -548,16 +565,25 @@ Check(s, e) ==
                     ELSE IF s.fault /\ SyncBars(s) # {} /\ e.infmt THEN "/render-error-during-width-sync"
                     ELSE ""
              ps  == "C01,C02" \o (IF s.fault THEN ",C15" ELSE "") \o (IF Orphans(s) # {} THEN ",C17" ELSE "")
-                              \o (IF s.stopReq THEN ",C14" ELSE "")
+                              \o (IF s.stopReq \/ (s.closing /\ why = "") THEN ",C14" ELSE "")   \* (closing: Wait's own cancellation is under way)
                               \o (IF SyncBars(s) # {} /\ e.infmt THEN ",C12" ELSE "")
                               \o (IF e.wpend THEN ",C13" ELSE "")
-         IN <<B(ps, "hang" \o why, e, ToString(<<e.kind, e.pending>>))>>
+         IN IF e.kind = "spinning" /\ e.pending = <<>>
+            \* every call has returned and a library goroutine keeps running without ever blocking: a leak that burns a core
+            THEN <<B(IF s.fault THEN "C16,C15" ELSE "C16", "goroutine-leak", e, "a goroutine spins: " \o ToString(e.goroutines))>>
+            ELSE <<B(ps, "hang" \o why, e, ToString(<<e.kind, e.pending>>))>>
     [] e.ev = "panic" ->
          <<B("C02", "panic" \o (IF s.detached # {} /\ e.closedsend THEN "/detached-push" ELSE ""), e, e.msg)>>
     \* C09: a refill mark never exceeds what the counter can have been when the mark was set
     [] e.ev = "fill" ->
          IF e.refill > (IF e.b \in DOMAIN s.curUB THEN s.curUB[e.b] ELSE 0)
          THEN <<B("C09", "refill-exceeds-counter", e, ToString(<<e.b, e.refill>>))>> ELSE <<>>
+    \* C05/C01: a push takes the detour through a goroutine of its own only when the manager's queue is full; with a
+    \* queue at least twice as long as the number of bars (plus the few requests clients can add) it never is
+    [] e.ev = "detached" ->
+         LET q == IF s.cfg.q < 0 THEN 128 ELSE s.cfg.q IN
+         IF q >= 2 * Cardinality(DOMAIN s.bars) + 16
+         THEN <<B("C05,C01", "detached-push-with-room-in-the-queue", e, ToString(<<q, Cardinality(DOMAIN s.bars)>>))>> ELSE <<>>
     [] e.ev = "race" -> IF e.lib THEN <<B("C10", "data-race", e, e.msg)>> ELSE <<>>
     [] e.ev = "latewrite" -> <<B("C03", "write-after-wait", e, "late")>>
     [] e.ev = "quiesce" -> FinalRules(s, e) \o OrderRules(s, e)
@@ -572,7 +598,8 @@ NarrowRules == {"hang", "hang/detached-push", "hang/orphaned-successor", "hang/r
                 "debug-lines", "spurious-debug", "running-after-done", "not-exactly-one-terminal-state",
                 "completed-and-aborted", "completed-unstable", "aborted-unstable", "late-add", "late-write",
                 "short-write", "final-values-changed", "data-race", "ewma-samples-differ-between-decorators",
-                "refill-exceeds-counter", "render-request-ignored", "ewma-update-not-joined"}
+                "refill-exceeds-counter", "render-request-ignored", "ewma-update-not-joined",
+                "detached-push-with-room-in-the-queue"}
 (* With a render delay the frames drawn before the delay ends are discarded together with the text they carry: which
    bars have already left, and which lines were lost, cannot be told from the output. *)
 DelayBlind == {"missing", "missing/detached-push", "never-shown", "never-shown/detached-push", "last-frame-missing",
